@@ -133,6 +133,48 @@ def run(ctx):
                               "the stored name is the comm content with only trailing characters removed (%s)" % ", ".join(applied),
                               "the kernel's thread name is altered before it is stored: %s applied to the comm content (only trailing trimming is expected)" % ", ".join(extra or ["?"]))
         ctx.floor(R, "Thread aggregates in enumerate_threads", n, 1)
+        # ... the name of THIS thread: the variable the element's name is taken from is (re)defined on every path of the iteration that
+        # builds the element.  A `let mut name = None;` hoisted above the loop and assigned only when the read succeeds keeps the previous
+        # thread's name for a thread whose comm cannot be read (the origin expressions of two iterations are the same text, so the
+        # expression-level clauses above cannot see it)
+        loops = eb.loops()
+        for bi, blk in enumerate(eb.blocks):
+            for si, st in enumerate(blk["stmts"]):
+                if not (st["k"] == "assign" and st["r"]["k"] == "agg" and st["r"].get("ak") == "adt" and norm(st["r"]["adt"]).endswith("ptrace_dumper::Thread")):
+                    continue
+                flds = st["r"].get("fields") or []
+                ops = st["r"].get("ops") or []
+                op = ops[flds.index("name")] if "name" in flds and len(ops) == len(flds) else None
+                L = op["p"]["l"] if op and op.get("k") in ("copy", "move") and not op["p"]["proj"] else None
+                for _hop in range(6):      # through moves, clones and the references handed to them
+                    if L is None:
+                        break
+                    ds = [d for d in eb.defs.get(L, ()) if d[2] in ("assign", "call")]
+                    if len(ds) != 1:
+                        break
+                    d = ds[0]
+                    nxt = None
+                    if d[2] == "assign":
+                        r = d[3]["r"]
+                        if r["k"] == "use" and r["o"].get("k") in ("copy", "move") and not r["o"]["p"]["proj"]:
+                            nxt = r["o"]["p"]["l"]
+                        elif r["k"] == "ref" and not r["p"]["proj"]:
+                            nxt = r["p"]["l"]
+                    elif CalleeView(d[3]["callee"]).short in ("std::clone::Clone::clone", "std::option::Option::take", "std::mem::take") and d[3]["args"]:
+                        a0 = d[3]["args"][0]
+                        nxt = a0["p"]["l"] if a0.get("k") in ("copy", "move") and not a0["p"]["proj"] else None
+                    if nxt is None:
+                        break
+                    L = nxt
+                inner = [h for h, body in loops.items() if bi in body]
+                if L is None or not inner:
+                    ctx.unproven(R, ("Thread", "name-fresh-per-thread"), eb.where(bi, si), "cannot find the variable the element's name is taken from, or the element is not built in a loop")
+                    continue
+                h = min(inner, key=lambda x: len(loops[x]))
+                dblocks = {d[0] for d in eb.defs.get(L, ()) if d[2] in ("assign", "call") and d[0] in loops[h]}
+                w = must_pass(eb, h, {bi}, dblocks) if dblocks else [h]
+                ctx.check(w is None, R, ("Thread", "name-fresh-per-thread"), eb.where(bi, si), "the name variable is defined on every path of the iteration that builds the element",
+                          "the variable the element's name is taken from (%s) is not assigned on every path of the iteration: a thread whose name cannot be read inherits the name left by an earlier thread" % eb.local_name(L))
     # a thread whose name cannot be decoded must be "simply absent": it must not fail the dump (and with it every other entry)
     from rules import c04
     c04.rule_hard_decode(ctx, R="C15/hard-decode")
